@@ -6,10 +6,11 @@
     retraction the file requested), and a forwarded printing move that extrudes starts with the printer exactly as deep
     as the file (0): the commands in front of it have recovered what was owed.  The state-machine facts (owed, once,
     never doubled, firmware parameters carried) are proved for every state and every number instance.
-    PARTIAL: the firmware dialect (G10/G11 parity over whole programs) has the state-machine facts only; its
-    whole-program statement is decided by the reference-printer oracle and the correspondence. *)
+    Firmware dialect (G10 / G11), same histories:  retracted(printer) = retracted(file) || owed,  owed only while the file
+    is not retracted -- so G10 / G11 reach the printer with the file's parity, and a forwarded extruding move finds the
+    printer un-retracted, the owed G11 (carrying the original parameters) standing in front of it. *)
 From Coq Require Import Reals String List Bool.
-From ER Require Import Base.Num Model.Geometry Model.Axis Model.Filter Proofs.FilterLemmas Proofs.Outputs Proofs.Retract Spec.Printer Proofs.Track Proofs.FSync Proofs.Sync Proofs.Depth.
+From ER Require Import Base.Num Model.Geometry Model.Axis Model.Filter Proofs.FilterLemmas Proofs.Outputs Proofs.Retract Spec.Printer Proofs.Track Proofs.FSync Proofs.Sync Proofs.Depth Proofs.FwParity.
 Import ListNotations.
 
 (** the depth invariant over every well-formed history *)
@@ -44,6 +45,31 @@ Theorem C05_premises_satisfiable : forall rs : list (region R),
   wf_hist ex_cfg x0 ex_hist /\ dwf_hist 4 ex_cfg x0 ex_hist.
 Proof. exact depth_premises_satisfiable. Qed.
 
+(** firmware retraction: parity invariant over every well-formed history *)
+Theorem C05_fw_parity_invariant : forall c rs (h : list hev),
+  let x0 := mkSim (init_state rs) init_printer init_printer in
+  wf_hist c x0 h -> fwf_hist c x0 h ->
+  let x := hrun c x0 h in
+  qfw (sm_F x) = (qfw (sm_U x) || match lastRetraction (sm_s x) with Some lr => recoverExcluded lr | None => false end) /\
+  (match lastRetraction (sm_s x) with Some lr => recoverExcluded lr | None => false end = true -> qfw (sm_U x) = false).
+Proof.
+  intros c rs h x0 W DW x. destruct (fw_run c h x0 (sync_init rs) (fw_init rs) W DW) as (_ & D). exact (fw_reading _ _ _ D).
+Qed.
+Theorem C05_fw_print_move_level : forall c (s : fstate R) (F U : printer R) (m : icmd R),
+  Track s U -> Fwp s F U -> wf_cmd c U m -> fwf U m ->
+  linear m = true -> moving m = true -> (0 < dE U (cwords m))%R ->
+  excluding s = false -> excluding (fst (handle c s m)) = false ->
+  exists pre, outs m (snd (handle c s m)) = (pre ++ [Orig (ctext m)])%list /\ qfw (run_outs (g90e c) m F pre) = false /\ qfw U = false.
+Proof. exact fw_handle_print_level. Qed.
+Theorem C05_fw_step : forall c (x : sim) (ev : hev), Sync x -> FwX x ->
+  match ev with HCmd m => wf_cmd c (sm_U x) m /\ no_home_inside (sm_s x) m | _ => True end ->
+  match ev with HCmd m => fwf (sm_U x) m | _ => True end -> FwX (hstep c x ev).
+Proof. exact fw_step. Qed.
+Theorem C05_fw_premises_satisfiable : forall rs : list (region R),
+  let x0 := mkSim (init_state rs) init_printer init_printer in
+  wf_hist ex_cfg x0 fw_ex_hist /\ fwf_hist ex_cfg x0 fw_ex_hist.
+Proof. exact fw_premises_satisfiable. Qed.
+
 Theorem C05_recovery_inside_is_owed : forall (T : Type) (N : Num T) (s : fstate T) cmd lr,
   excluding s = true -> lastRetraction s = Some lr ->
   snd (recoverRetractionIfNeeded s cmd true) = [] /\
@@ -77,6 +103,10 @@ Print Assumptions C05_depth_invariant.
 Print Assumptions C05_print_move_level.
 Print Assumptions C05_depth_step.
 Print Assumptions C05_premises_satisfiable.
+Print Assumptions C05_fw_parity_invariant.
+Print Assumptions C05_fw_print_move_level.
+Print Assumptions C05_fw_step.
+Print Assumptions C05_fw_premises_satisfiable.
 Print Assumptions C05_recovery_inside_is_owed.
 Print Assumptions C05_owed_recovery_once.
 Print Assumptions C05_no_double_retraction.
